@@ -1,5 +1,6 @@
 import AvroModel
 import AvroProofs.Lemmas.RoundTrip
+import AvroProofs.Lemmas.Prim
 /-!
 # C01 — datum round-trip
 
@@ -69,5 +70,55 @@ example : Conforms cfg0 [] (.union [.null, .map (.array .double)])
   refine .union (b := .map (.array .double)) rfl (by decide) ?_
   refine .map (.cons (by decide) (by decide) ?_ .nil) (by decide) (by decide) (by decide)
   exact .array (.cons (.double _) (.cons (.double _) .nil)) (by decide) (by decide)
+
+/-! ### conformance of logical values, from the proved facts about the modelled primitives
+
+`Conforms` carries the round trips of the modelled num-bigint / uuid primitives as premises of its
+decimal, big-decimal and uuid-string constructors.  `AvroProofs/Lemmas/Prim.lean` proves them for
+every number and every 16-byte uuid, so these values conform outright: -/
+
+/-- the width in bytes a decimal needs (`to_signed_bytes_be().len()`, 0 for zero) -/
+def decimalWidth (i : Int) : Nat := if i = 0 then 0 else minWidth i
+
+/-- every decimal whose unscaled number fits the declared width conforms (bytes-backed) -/
+theorem conforms_decimal_bytes (cfg : Cfg) (env : Names) (p sc : Nat) (i : Int) (len : Nat)
+    (hfit : decimalWidth i ≤ len) (hlim : len ≤ cfg.lim) :
+    Conforms cfg env (.decimal p sc .bytes) (.decimal i len) := by
+  obtain ⟨b, hs, hl, hv⟩ := signExtend_ok i len hfit
+  subst hl
+  exact .decimalBytes hs hv hlim
+
+/-- every decimal whose unscaled number fits the size of the fixed conforms (fixed-backed) -/
+theorem conforms_decimal_fixed (cfg : Cfg) (env : Names) (p sc : Nat) (name : Bytes) (i : Int) (size : Nat)
+    (hfit : decimalWidth i ≤ size) (hlim : size ≤ cfg.lim) :
+    Conforms cfg env (.decimal p sc (.fixed name size)) (.decimal i size) := by
+  obtain ⟨b, hs, hl, hv⟩ := signExtend_ok i size hfit
+  subst hl
+  exact .decimalFixed hs hv hlim
+
+/-- every big decimal within the allocation limit conforms -/
+theorem conforms_bigDecimal (cfg : Cfg) (env : Names) (u sc : Int) (hsc : i64ok sc)
+    (hlim : (encBytes (toSignedBE u) ++ encLong sc).length ≤ cfg.lim) :
+    Conforms cfg env .bigDecimal (.bigDecimal u sc) :=
+  .bigDecimal (fromSignedBE_toSignedBE u) hsc hlim
+
+/-- every uuid conforms to the string-backed uuid schema -/
+theorem conforms_uuidString (cfg : Cfg) (env : Names) (b : Bytes) (hb : b.length = 16) (hlim : 36 ≤ cfg.lim) :
+    Conforms cfg env .uuidString (.uuid b) := by
+  obtain ⟨h1, h2, h3⟩ := uuid_text b hb
+  exact .uuidString h1 h2 (by omega)
+
+/-- so: every decimal that fits its width round-trips, whatever its sign and magnitude -/
+theorem decimal_roundtrip (cfg : Cfg) (env : Names) (hl : cfg.lim < 2^63) (p sc : Nat) (i : Int) (len : Nat)
+    (hfit : decimalWidth i ≤ len) (hlim : len ≤ cfg.lim) :
+    ∃ bs n, ∀ fuel, n ≤ fuel →
+      encode env fuel (.decimal p sc .bytes) (.decimal i len) = .ok bs ∧
+      ∀ rest, decode cfg env fuel (.decimal p sc .bytes) (bs ++ rest) = .ok (.decimal i len, rest) :=
+  decode_encode cfg env hl _ _ (conforms_decimal_bytes cfg env p sc i len hfit hlim)
+
+/-- non-vacuity: -129 needs two bytes and conforms in a three-byte slot -/
+example : decimalWidth (-129) = 2 := by decide
+example : Conforms cfg0 [] (.decimal 5 2 .bytes) (.decimal (-129) 3) :=
+  conforms_decimal_bytes cfg0 [] 5 2 (-129) 3 (by decide) (by decide)
 
 end Avro.C01
